@@ -29,13 +29,14 @@ def project(kind, v):
         return {"method": [v["method"]] if v["method"] is not None else [], "target": [v["uri"]] if v["uri"] is not None else [],
                 "headers": [{"name": h["name"], "value": h["value"]} for h in v["headers"]], "cookies": v["cookies"],
                 "referer": [v["referer"]] if v["referer"] is not None else [], "ua": [v["ua"]] if v["ua"] is not None else [],
-                "lang": [v["lang"]] if v["lang"] is not None else [], "obs": v["obs"], "text": v["text"], "status": []}
+                "lang": [v["lang"]] if v["lang"] is not None else [], "obs": v["obs"], "text": v["text"], "sigtext": v["sigtext"], "status": []}
     return {"method": [], "target": [], "headers": [{"name": h["name"], "value": h["value"]} for h in v["headers"]], "cookies": [], "referer": [], "ua": [],
-            "lang": [], "obs": v["obs"], "text": v["text"], "status": [v["status"]] if v["status"] is not None else []}
+            "lang": [], "obs": v["obs"], "text": v["text"], "sigtext": v["sigtext"], "status": [v["status"]] if v["status"] is not None else []}
 
 
 def diff(e, got):
-    return [k for k in ("method", "target", "status", "headers", "cookies", "referer", "ua", "lang", "obs", "text") if e[k] != got[k]]
+    # the signature the user is handed (Display of the observable request / response) must read like the p0f text of the observation
+    return [k for k in ("method", "target", "status", "headers", "cookies", "referer", "ua", "lang", "obs", "text") if e[k] != got[k]] + (["sigtext"] if got["sigtext"] != e["text"] else [])
 
 
 def run(tier, v):
